@@ -33,16 +33,20 @@ import (
 //     the ACCEPT encoding of one side and the ACCEPT parsing of the other.
 
 func init() {
-	register(&Prop{ID: "C19", Level: "exploration", Run: runC19, Replay: replayC19})
+	// shard 0 runs the in-process parts, every further shard is one RPC task (c19_rpc.go)
+	register(&Prop{ID: "C19", Level: "exploration", Run: runC19, Replay: replayC19, Workers: func(e *Env) int { return 1 + len(c19RPCTasks(e)) }})
 }
 
 type c19Case struct {
-	Part string `json:"part"`           // "helper" | "negotiate" | "framing" | "accept"
+	Part string `json:"part"`           // "helper" | "negotiate" | "framing" | "accept" | "rpc-v0-verdicts" | "rpc-offer"
 	A    []int  `json:"a"`              // local version list (negotiate: empty = no "pv" entry, protocol default)
 	B    []int  `json:"b,omitempty"`    // the other list
 	Peer string `json:"peer,omitempty"` // negotiate: what the peer record carries under "pv"
 	Size int    `json:"size,omitempty"` // framing: content length
-	Keys string `json:"keys,omitempty"` // accept: one class per offered key: s(tored) f(resh) o(ut of radius)
+	Keys string `json:"keys,omitempty"` // accept, rpc-offer: one class per offered key: s(tored) f(resh) o(ut of radius)
+	Bits string `json:"bits,omitempty"` // rpc-v0-verdicts: the version-0 ACCEPT, one character per offered key, '1' = accepted
+	// rpc-offer: the record the RPC is given for B has no "pv" entry
+	Unadv bool `json:"b_record_without_version_entry,omitempty"`
 }
 
 func u8s(xs []int) []uint8 {
@@ -520,6 +524,10 @@ func c19RunConsumers(r *mc.Report, e *Env) {
 }
 
 func runC19(r *mc.Report, e *Env) {
+	if e.Of > 1 && e.Shard > 0 {
+		c19RPCTaskRun(r, e, e.Shard-1)
+		return
+	}
 	r.Rule = "every case runs the real helper / getOrStoreHighestVersion (3 calls on the virtual clock) / framing and ACCEPT code of two real unstarted nodes; distinct = distinct (part, negotiated versions per call | framing version and lengths | ACCEPT bytes) observations"
 	r.Assume("version lists are bounded as stated; lists over other values of 0..255 are not enumerated")
 	r.Assume("consumers: every use negotiates afresh (a new record object per use), so the cached-failure defect of the negotiation is reported once, by the negotiation part; offers in which a key is accepted go through filterContentKeys/parseOfferResp directly because the handlers would start a uTP transfer")
@@ -527,6 +535,8 @@ func runC19(r *mc.Report, e *Env) {
 	c19RunNegotiate(r, e)
 	c19RunConsumers(r, e)
 	c19RunStale(r, e)
+	c19RunV0Verdicts(r, e)
+	c19RPCEvidence(r, e)
 	// the end-to-end part (one offer and one large find-content per pairing over the in-memory network) is added here
 }
 
@@ -547,6 +557,12 @@ func replayC19(r *mc.Report, e *Env, raw json.RawMessage) {
 		n := c19Local(u8s(c.A))
 		defer n.Close()
 		c19Negotiate(r, n, c)
+	case "rpc-v0-verdicts":
+		n := c19Local(u8s(c.A))
+		defer n.Close()
+		c19V0Verdicts(r, n, c)
+	case "rpc-offer":
+		c19RPCReplay(r, c)
 	case "framing", "accept":
 		p := newC19Pair(u8s(c.A), u8s(c.B))
 		defer p.close()
